@@ -238,3 +238,11 @@ def include_rules(P, rep, rule, modname, pred, what, floor):
         else:
             rep.bad(rule, '%s:%s' % (modname, o['key']), '%s — dependency broken: %s' % (what, o['what']), o.get('site'), o.get('detail'), o.get('witness'))
     rep.floor('%s obligations (%s)' % (what, modname), n, floor)
+
+
+def is_zero(t):
+    """the integer 0, literally or as the numeric Default"""
+    t = core(t)
+    if const_int(t) == 0:
+        return True
+    return t[0] == 'call' and re.search(r'core::<[iu](8|16|32|64|128|size) as core::default::Default>::default$', t[1]) is not None
